@@ -1,10 +1,38 @@
 import SoundeventModel.Ops.Common
 import SoundeventModel.Aoef.Closure
+import SoundeventModel.Aoef.Adapter
 namespace SE.Ops.C02
 open Lean SE SE.Aoef SE.Paths
 
 def kindTable (f : Kind → List String) : Json :=
   Json.mkObj (Kind.all.map fun k => (k.name, toJson (f k)))
+
+/-- one operation of the adapter protocol: `["to_aoef", x] | ["to_se", o] | ["from_id", i] | ["values"] | ["get_id", x]` -/
+def adapterStep {κ ι σ ω} [BEq κ] [BEq ι] [ToJson σ] [FromJson σ] [ToJson ω] [FromJson ω] [ToJson ι] [FromJson ι]
+    (sp : Adapter.Spec κ ι σ ω) (a : Adapter κ ι σ ω) (j : Json) : Except String (Json × Adapter κ ι σ ω) := do
+  match ← getArr j with
+  | [Json.str "to_aoef", x] =>
+    let (o, a') := Adapter.toAoef sp a (← fromJson? x)
+    return (toJson o, a')
+  | [Json.str "to_se", o] =>
+    let (s, a') := Adapter.toSoundevent sp a (← fromJson? o)
+    return (toJson s, a')
+  | [Json.str "from_id", i] => return (toJson (Adapter.fromId a (← fromJson? i)), a)
+  | [Json.str "values"] => return (toJson (Adapter.values a), a)
+  | [Json.str "get_id", x] =>
+    let (i, a') := Adapter.getId sp a (← fromJson? x)
+    return (toJson i, a')
+  | _ => .error "bad adapter op"
+
+def adapterRun {κ ι σ ω} [BEq κ] [BEq ι] [ToJson σ] [FromJson σ] [ToJson ω] [FromJson ω] [ToJson ι] [FromJson ι]
+    (sp : Adapter.Spec κ ι σ ω) (ops : List Json) : Except String Json := do
+  let mut a : Adapter κ ι σ ω := {}
+  let mut out : Array Json := #[]
+  for j in ops do
+    let (r, a') ← adapterStep sp a j
+    a := a'
+    out := out.push r
+  return Json.arr out
 
 def handle (op : String) (a : Json) : Except String Json := do
   match op with
@@ -20,6 +48,13 @@ def handle (op : String) (a : Json) : Except String Json := do
     -- keys of the distinct objects reachable from a collection, per kind
     let c : Collection ← fromJson? (← fld a "collection")
     return kindTable (fun k => (reachKeys c.trav k).eraseDups)
+  | "adapter_ops" =>
+    -- an operation sequence on a fresh `UserAdapter` / `TagAdapter` (operational model of adapters.py)
+    let ops ← fldArr a "ops"
+    match ← fldStr a "kind" with
+    | "user" => adapterRun userSpec ops
+    | "tag" => adapterRun tagSpec ops
+    | k => .error s!"unknown adapter kind {k}"
   | _ => .error s!"C02: unknown op {op}"
 
 end SE.Ops.C02
